@@ -307,8 +307,6 @@ pub fn ftok(x: f64) -> String {
     format!("f{bits:016x}")
 }
 
-/// Canonical dump of a 2-map: `mask n` then per dart `b0 b1 b2 unused vflag [x y] (aflag [val])*`.
-/// Raw slots are dumped at *every* id, not only at cell ids, so stale data is visible.
 thread_local! {
     /// number of reads of a slot below the dart count that panicked while dumping (C18: addressability)
     pub static DUMP_PANICS: std::cell::Cell<u32> = const { std::cell::Cell::new(0) };
@@ -332,6 +330,8 @@ pub fn mark_dump_panics(id: &str, k: usize, line: &mut String) {
     }
 }
 
+/// Canonical dump of a 2-map: `mask n` then per dart `b0 b1 b2 unused vflag [x y] (aflag [val])*`.
+/// Raw slots are dumped at *every* id, not only at cell ids, so stale data is visible.
 pub fn dump2(m: &CMap2<f64>, mask: u32, out: &mut String) {
     let n = m.n_darts();
     write!(out, " {mask} {n}").unwrap();
